@@ -10,6 +10,14 @@ CLAIMED = {
    text="Seeded search over monotone programs and histories: every history runs in lock-step on a semi-naive engine, an engine with semi-naive switched off and one with every rule marked :naive; outcomes and id-free canonical dumps are compared after every single iteration and command; a sub-batch runs 2-8 threads under the token scheduler with all parallel cut-offs drawn near 0. Sampling, not proof.",
    note="Trusts the harness' canonical dump (least-term naming through the public read API). F4 faults are excluded on purpose (the two modes may legitimately stop at different matches).",
    tech="deterministic simulation (seeded histories + token-passing scheduler), differential oracle semi-naive vs naive"),
+ "C17": dict(cat="exploration", ref="DESIGN §5 C17",
+   text="Sequential union-find: seeded union/find/reset/reserve sequences checked after every operation against a partition model (find = class minimum, find_naive agrees, path compression keeps the partition). Concurrent union-find: 2-4 simulated threads under the seeded token scheduler with yield points between every load and CAS and around the buffer resize; each recorded history (invoke/return stamped by a global event counter) is checked for linearizability against the partition model by a memoised Wing-Gong search, then the quiescent partition must equal connectivity with minimum representatives. Seeded sampling of interleavings, not enumeration.",
+   note="A serialising scheduler cannot see weak-memory effects; threads are descheduled only at hook sites. The sequential specification of union's result is (smaller class minimum, larger class minimum). One open known finding (stale parent reported by a linking union) is classified separately so that any other linearizability violation is still reported.",
+   tech="deterministic simulation (token-passing scheduler, seeded random/sticky/PCT/starve policies) + linearizability checking against a partition model"),
+ "C19": dict(cat="exploration", ref="DESIGN §5 C19",
+   text="The real egglog-concurrency code (thread pool with nested scopes, helping workers and backup workers; ReadOptimizedLock; ConcurrentVec; ParallelVecWriter; NotificationList; Notification; ResettableOnceLock; SharedArena) runs under the seeded token scheduler with every hook site eligible. Oracles: every task ran exactly once on the first line after scope returns, a panic payload reaches the caller after all tasks finished, deadlock is a scheduler verdict (no runnable thread), no torn read / overlapping writers on the two-word invariant, nothing lost or duplicated in the vectors and lists. Seeded sampling of interleavings.",
+   note="Blocking receive/wait/join are replaced by poll-and-yield variants of the same operation; data races on plain memory and weak-memory effects are invisible to a serialising scheduler (Miri complement planned for the thorough tier).",
+   tech="deterministic simulation (token-passing scheduler with seeded policies and per-run site subsets), scheduler-decided deadlock detection"),
 }
 NOT_YET = "check not built yet in this round; will be claimed once its check is silent on the unchanged tree and sensitive to seeded breakage"
 NA = {
